@@ -178,9 +178,18 @@ def probe_settings(name):
 # ---------------------------------------------------------------------------
 # E1: agreement product
 # ---------------------------------------------------------------------------
+BOUNDARY_LENGTHS = (7, 8, 9, 14, 15, 16, 17, 31, 32, 33, 55, 56, 57, 63, 64, 65, 71, 111, 112, 113, 119, 120, 127, 128, 129)
+
+
 def e1_passwords(quick):
     out = [("ascii", "password"), ("empty", ""), ("utf8", "pässwörd€"), ("nonutf8_bytes", b"\xff\xfe\x80pw"),
            ("bytes_high", bytes(range(0x80, 0xA0))), ("len72", "x" * 72), ("len73", "y" * 73), ("len97", "z" * 97)]
+    # digest / HMAC / DES block boundaries (exactly at, one below, one above), as text, as multi-byte text and as
+    # non-UTF-8 bytes (the latter take the fallback path under os_crypt)
+    for L in BOUNDARY_LENGTHS:
+        out.append((f"len{L}", "".join(chr(97 + i % 26) for i in range(L))))
+        out.append((f"len{L}_utf8", ("é" * (L // 2) + "a" * (L % 2))))
+        out.append((f"len{L}_nonutf8", bytes(0x80 + (i * 7) % 0x7F for i in range(L))))
     if not quick:
         out += [("len255", "w" * 255), ("len4096", "v" * 4096), ("latin1_bytes", "pässwörd".encode("latin-1")), ("len8", "12345678"), ("len9", "123456789")]
     return out
@@ -517,9 +526,11 @@ def run(ctx):
                 grid = grid[:: max(1, len(grid) // 8)][:8]
             pws = e1_passwords(ctx.quick)
         if wrapper and ctx.quick:
-            grid, pws = grid[:2], pws[:4]
+            grid, pws = grid[:2], pws[:4] + [t for t in pws[8:] if t[0].startswith(("len64", "len128"))]
         for si, st in enumerate(grid):
             for label, p in pws:
+                if ctx.quick and si >= 2 and label[3:].split("_")[0].isdigit() and int(label[3:].split("_")[0]) in BOUNDARY_LENGTHS:
+                    continue  # boundary sweep on the first two settings only in quick
                 if not HS.admissible(name, p, {}, st):
                     continue
                 cases.append({"part": "e1", "hasher": name, "settings": st, "si": si, "label": label, "password": p})
